@@ -584,22 +584,28 @@ func runC17(c *vk.Ctx) {
 	c.Assume("monotonicity on boundary statistics is judged non-strictly (floating-point saturation makes large tf scores equal), strictly on the metamorphic corpora (small tf)",
 		"explanation node formulas are the six message templates present in the code; an unknown template is a violation",
 		"compound law: parts are scored by separate searches on the same reader")
-	c17Direct(c, c.Pick(60000, 4000000))
-	nMeta := c.Pick(150, 12000)
-	nQ := c.Pick(60, 6000)
+	c17Direct(c, c.Pick(60000, 2000000))
+	nMeta := c.Pick(150, 4000)
+	nQ := c.Pick(60, 1500)
 	workers := runtime.NumCPU()
 	var wg sync.WaitGroup
+	var next atomic.Int64 // shared work queue: the slow query cases do not pile up on one worker
 	for w := 0; w < workers; w++ {
 		wg.Add(1)
-		go func(w int) {
+		go func() {
 			defer wg.Done()
-			for i := w; i < nMeta; i += workers {
-				c17Metamorphic(c, i)
+			for {
+				i := int(next.Add(1)) - 1
+				switch {
+				case i < nQ:
+					c17Queries(c, i)
+				case i < nQ+nMeta:
+					c17Metamorphic(c, i-nQ)
+				default:
+					return
+				}
 			}
-			for i := w; i < nQ; i += workers {
-				c17Queries(c, i)
-			}
-		}(w)
+		}()
 	}
 	wg.Wait()
 	c.Event("searches_aborted_by_step_limit_see_C10", int(stepLimitHits.Load()))
